@@ -151,7 +151,7 @@ def prog(n, pattern, old_free=None):
 def _work(args):
     n, pat, keep, old = args
     return run_program(f"SUBSPACE[n={n},{pat},old_free={old}]", prog(n, pat, old), mode="real", keep_smt=keep,
-                       timeout_ms=60000 if n <= 2 else 150000)
+                       timeout_ms=60000)
 
 
 def run_unit(tier="quick", procs=16):
